@@ -13,9 +13,11 @@ META = {
                    "reductions (max/min) over lists of symbolic length d-1 are dominated by a guard that excludes d = 1, and the returned "
                    "value is definitely assigned; (K2) the result is built through TT(...) from cores whose mode sizes are taken from the "
                    "operator's row modes (resp. the first factor's modes), and fast_matvec's kind/shape guards precede the call; (K3) the "
-                   "initial guess is not written (effect analysis). Does NOT decide the eps accuracy, convergence or seed independence.",
+                   "initial guess is not written (effect analysis); (K4) the local right-hand side _local_AB and the interface recursions of the AMEn "
+                   "matrix product are the specified projections of A_k B_k (E5 canonical networks, generic independent sizes) and every tensor "
+                   "statement of its two sweeps types consistently over the independent rank families rx, rz, R_A, R_B, M, K, N (IFACE-TYPE). Does NOT decide the eps accuracy, convergence or seed independence.",
     "assumptions": ["convergence of randomised two-site sweeps and the unspecified 'small constant' are runtime quantities"],
-    "floors": {"EMPTY-REDUCE": 2, "DEFASSIGN": 30, "RESULT-SHAPE": 4, "E3-PARAM": 3},
+    "floors": {"EMPTY-REDUCE": 2, "DEFASSIGN": 30, "RESULT-SHAPE": 4, "E3-PARAM": 3, "IFACE-TYPE": 28, "E5-CHAIN": 5},
 }
 ANCHORS = ["_dmrg.dmrg_matvec_python", "_dmrg.dmrg_hadamard_python", "_amen._amen_mm_python", "_tt_base.TT.fast_matvec", "_dmrg.dmrg_matvec",
            "_dmrg.dmrg_hadamard", "_amen.amen_mv", "_amen.amen_mm"]
@@ -90,4 +92,6 @@ def check(model: Model, tier: str):
     obs += rules.rule_unres(model, [model.func(a) for a in ANCHORS if "python" not in a])
     from ..e5 import obligations as e5ob
     obs += e5ob.for_property(model, "C11", tier)
+    from ..e5.slicetype import type_body
+    obs += type_body(model, "_amen._amen_mm_python")
     return obs, {"functions": ANCHORS}
